@@ -502,7 +502,7 @@ def full_string(rng, case, trailing=False):
 # ---------------------------------------------------------------------------------------------
 # shared atoms (squash operator)
 
-def build_case_shared(rng, g, part, p_share=0.5, kinds=('$', '><'), render_opts=None):
+def build_case_shared(rng, g, part, p_share=0.5, kinds=('$', '><'), render_opts=None, force_atoms=()):
     """like build_case, but a subset of the cut bonds is replaced by sharing one end atom: the atom b
     is cloned into the neighbouring fragment P (bonded there to all of b's neighbours in P) and clone
     and original carry a uniquely labelled '!' pair."""
@@ -519,10 +519,11 @@ def build_case_shared(rng, g, part, p_share=0.5, kinds=('$', '><'), render_opts=
     done_edges = set()
     keys = list(cand)
     rng.shuffle(keys)
+    keys.sort(key=lambda k: k[0] not in force_atoms)
     nxt = max(g.nodes) + 1
     origin = {n: n for n in g}
     for (b, P) in keys:
-        if rng.random() > p_share:
+        if b not in force_atoms and rng.random() > p_share:
             continue
         nbrs = [a for a in cand[(b, P)] if frozenset((a, b)) not in done_edges and g.has_edge(a, b) and part[a] == P]
         if not nbrs or origin[b] != b:
